@@ -18,7 +18,7 @@ import re
 
 from decimal import Decimal
 
-from datetime import datetime
+from datetime import datetime, timezone
 
 from IPy import IP
 from dateutil.parser import parse
@@ -809,7 +809,11 @@ class DataType(object):
         normalized = set()
         for value in values:
             if isinstance(value, datetime):
-                normalized.add(self.format_utc_datetime(value))
+                try:
+                    normalized.add(self.format_utc_datetime(value))
+                except OverflowError:
+                    # Happens when conversion to UTC yields a year that is out of range.
+                    raise EDXMLEventValidationError('Invalid datetime value: %s' % repr(value))
             elif isinstance(value, str):
                 try:
                     normalized.add(self.format_utc_datetime(parse(value)))
@@ -1587,8 +1591,9 @@ class DataType(object):
 
         Notes:
 
-          The datetime object must have its time zone
-          set to UTC.
+          Time zone aware datetime objects are converted
+          to UTC. Naive datetime objects are assumed to
+          be in UTC.
 
         Args:
           date_time (datetime.datetime): datetime object
@@ -1596,6 +1601,8 @@ class DataType(object):
         Returns:
           str: EDXML datetime string
         """
+        if date_time.utcoffset():
+            date_time = date_time.astimezone(timezone.utc)
         try:
             return date_time.strftime('%Y-%m-%dT%H:%M:%S.%fZ')
         except ValueError:
